@@ -644,6 +644,10 @@ class Run:
         status, out, msg = run_main(argv)
         kind = err_kind(status, msg)
         self.count('recover:' + kind)
+        e = self.expected_entry(bound)
+        # the restored index is examined against a full scan only where the guarantee applies; elsewhere
+        # (damaged file used, chain outside QuickDetectable) only its presence / staleness is observed
+        precise = judge and status == 0 and e is not None and not e.excluded and not self.outside
         if mode == 's':
             data = out if status == 0 else None
             obs = '%s %d %d' % ('ok' if status == 0 else 'err', len(out), fnv64(out))
@@ -656,7 +660,7 @@ class Run:
             part = os.path.getsize(self.out + '.part') if os.path.exists(self.out + '.part') else None
             idx = 'none'
             if os.path.exists(self.out + '.index'):
-                idx = index_status(self.out, deep) if (judge and status == 0) else (
+                idx = index_status(self.out, deep) if precise else (
                     'stale' if open(self.out + '.index', 'rb').read() == STALE_INDEX else 'new')
             obs = '%s file=%s part=%s idx=%s' % (
                 'ok' if status == 0 else 'err',
@@ -670,7 +674,6 @@ class Run:
         self.emit('recover %s %d %s %d' % (bound, int(w), mode, int(pre)), obs)
         if not judge:
             return obs
-        e = self.expected_entry(bound)
         desc = 'recover -D %s%s%s' % (date or '(now)', ' -w' if w else '', ' -o' if mode == 'o' else '')
         if e is None:
             if status == 0:
